@@ -277,9 +277,10 @@ pub fn get_status_result(
             statuses.push(*got_status)
         }
     }
+    proof { lemma_count_all(rule@, Status::SKIP, rule@.len()); }
 
-        proof { lemma_count_all(rule@, Status::SKIP, rule@.len()); }
-if expected == Status::SKIP && all_skipped == rule.len() {
+
+    if expected == Status::SKIP && all_skipped > 0 {
         return (Some(expected), statuses);
     }
 
